@@ -510,6 +510,9 @@ func c13aRows(t *rapid.T, nText int, latin1 bool, f c13aFeats) []c13aRow {
 	day := ref.FromCivil(y, m, rapid.IntRange(1, 28).Draw(t, "day"))
 	maxRows := rapid.SampledFrom([]int{3, 5, 5, 8}).Draw(t, "maxRows")
 	minRows := rapid.SampledFrom([]int{0, 2, 2, 3}).Draw(t, "minRows")
+	if lo, hi := c13RowBounds(t, maxRows); lo > 1 {
+		minRows, maxRows = lo, hi
+	}
 	rows := rapid.SliceOfN(c13aRowGen(nText, latin1, f), minRows, maxRows).Draw(t, "rows")
 	limit := ref.FromCivil(2024, 12, 20)
 	for i := range rows {
